@@ -281,7 +281,7 @@ def correspond(ctx):
     nproc, rounds = (9, 12) if ctx.tier == "quick" else (45, 18)
     fails, mism, alltr, total = [], [], [], {}
     C2 = dict(C)
-    C2["LINE_wakeup_loop"] = c15_replay.site_lines().get("wakeup_loop", -1)
+    C2.update({"LINE_" + k: v for k, v in c15_replay.site_lines().items()})
     rjobs, rmeta, rstats = [], [], {}
     for i in range(nproc):
         seed = ctx.seed * 1000 + i
@@ -305,7 +305,7 @@ def correspond(ctx):
 
     def do_replay():
         try:
-            rbox["res"] = c15_replay.coq_replay("c15_replay", rjobs)
+            rbox["res"], rbox["retried"] = c15_replay.replay_all("c15_replay", rjobs, rmeta, C2)
         except Exception as ex:   # noqa
             rbox["err"] = str(ex)
     rth = threading.Thread(target=do_replay)
@@ -350,6 +350,7 @@ def correspond(ctx):
         mm_, nrep = c15_replay.judge(rmeta, rbox["res"], C2)
         mism += mm_
         rstats["rounds_replayed"] = nrep
+        rstats["rounds_needing_another_order_proposal"] = rbox.get("retried", 0)
     for k, v in rstats.items():
         total["replay_" + k] = v
     distinct = len(set(shape(t) for (_, t, _, _, _) in alltr))
